@@ -163,6 +163,8 @@ def main(ctx):
         's_prf_ignored': dict(part='encoding',
                               variant='PrfIgnoredWithKeyLength',
                               invariants=['EncSound']),
+        's_strict_envelope': dict(part='encoding', variant='StrictEnvelope',
+                                  invariants=['EncSound']),
         'passval': dict(part='passval', emit=True, bcrypt=bcrypt,
                         invariants=['TypeOK', 'PassSound', 'EmitRows']),
         's_empty_means_none': dict(part='passval', variant='EmptyMeansNone',
@@ -185,6 +187,7 @@ def main(ctx):
     expect = {'s_replace_on_continue': 'UnfoldOK',
               's_carry_enc_key': 'Independence',
               's_prf_ignored': 'EncSound',
+              's_strict_envelope': 'EncSound',
               's_empty_means_none': 'PassSound',
               's_any_hash': 'TableEquiv', 's_stop_at_junk': 'ScanEquiv',
               's_wrong_pass': 'RoundTrip'}
@@ -1113,13 +1116,20 @@ def encodings(ctx, D, scr, rows, kts, quick, kf_sig, only):
         der = D.openssl_public_der(
             scr, data, 'pkcs8-pem' if data[:5] == b'-----' else 'pkcs8-der',
             e['pw'])
+        if der is None:
+            return False
+        try:        # openssl keeps the point form of the input: normalise
+            from cryptography.hazmat.primitives import serialization as ser
+            der = D.pyca_public_der(ser.load_der_public_key(der))
+        except Exception:               # pylint: disable=broad-except
+            pass
         return der == D.pyca_public_der(k.pyca_key.public_key())
 
     for idx, (row, cls, outcome) in enumerate(rows):
         if not only.row('encoding', row):
             continue
         scheme = row['scheme']
-        if scheme in ('openssh', 'ecpriv'):
+        if scheme in ('openssh', 'ecpriv', 'ecpub', 'p8env'):
             kt = row['kt']
         elif scheme == 'dek':
             kt = 'ec256'
@@ -1131,6 +1141,48 @@ def encodings(ctx, D, scr, rows, kts, quick, kf_sig, only):
             continue
         k = D.key(kt)
         e = D.encode_case(row, k)
+        if scheme == 'ecpub':
+            # public keys / certificates with a (possibly compressed) point
+            stats['rows'] += 1
+            case = dict(row)
+            data = e.get('public') or e['cert']
+            rp = {'kind': 'encoding', 'row': row,
+                  'data': data.decode('latin-1')}
+            ctx.count(('encoding', idx), nontrivial=True)
+            try:
+                if 'cert' in e:
+                    got = asyncssh.import_certificate(data).key.public_data
+                else:
+                    got = asyncssh.import_public_key(data).public_data
+                exc = None
+            except Exception as ex:     # pylint: disable=broad-except
+                got, exc = None, ex
+            want = k.convert_to_public().public_data
+            if exc is not None and not isinstance(exc, ValueError):
+                ctx.violation(kf_sig('encoding', step='exception', **case),
+                              f'import raises {type(exc).__name__}: {exc}: '
+                              f'{case}', rp)
+            elif exc is not None:
+                if cls == 'legal':
+                    ctx.violation(kf_sig('encoding', step='legal-refused',
+                                         **case),
+                                  f'EC public key refused: {exc}: {case}', rp)
+                else:
+                    bump(stats['refused'], f'{scheme}/{cls}')
+            elif got != want:
+                ctx.violation(
+                    {'module': 'KeyFormats', 'part': 'encoding',
+                     'class': 'ec-compressed-point-kept', 'scheme': scheme,
+                     'row': row},
+                    f'EC public key with a {row["point"]} point imports with '
+                    f'public_data of {len(got)} bytes instead of the '
+                    f'{len(want)}-byte uncompressed blob every peer / '
+                    f'ssh-keygen uses: {case}', rp)
+            elif cls != 'legal':
+                bump(stats['lenient_accepts'], f'{scheme}/{cls}: normalised')
+            else:
+                stats['legal_imported'] += 1
+            continue
         if 'pem' in e:
             data = e['pem']
         elif idx % 2:
@@ -1157,7 +1209,9 @@ def encodings(ctx, D, scr, rows, kts, quick, kf_sig, only):
                 k2.public_data != k.public_data:
             ctx.violation(
                 {'module': 'KeyFormats', 'part': 'encoding',
-                 'class': 'public-half-not-derived', 'scheme': scheme,
+                 'class': 'ec-compressed-point-kept'
+                 if row.get('pub') == 'compressed'
+                 else 'public-half-not-derived', 'scheme': scheme,
                  'row': row},
                 f'{cls} encoding imports the right private key but its public '
                 f'half is wrong (public_data is {len(k2.public_data)} bytes, '
@@ -1181,6 +1235,9 @@ def encodings(ctx, D, scr, rows, kts, quick, kf_sig, only):
             ask = not same or idx % sample_every == 0
             if ask:
                 ref = reference_accepts(e, data, k, scheme)
+                if ref is False and scheme == 'p8env':
+                    bump(stats['refused'], 'p8env: reference reader refuses')
+                    continue
                 if ref is False and not same:
                     raise MachineryError(
                         f'harness encoder wrote a file that neither asyncssh '
